@@ -65,6 +65,10 @@ type Term struct {
 	Args []*Term
 	vars []int // sorted ids of the variables in the support (memoised lazily)
 	varsDone bool
+	sv    *Term // the single variable of the support, if there is exactly one
+	multi bool  // support has more than one variable
+	size  int   // number of nodes (tree size, saturating)
+	hasUF uint8 // 0 unknown, 1 yes, 2 no
 }
 
 type Table struct {
@@ -86,6 +90,7 @@ type TermStore struct {
 	Vars map[string]*Term
 	// UF signatures: name -> (arg widths, result width)
 	UFs map[string][]int
+	NoTabulate bool
 }
 
 func NewTermStore() *TermStore {
@@ -106,9 +111,83 @@ func (s *TermStore) mk(op Op, w int, k uint64, name string, args ...*Term) *Term
 		return t
 	}
 	t := &Term{ID: len(s.all), Op: op, W: w, K: k, Name: name, Args: append([]*Term(nil), args...)}
+	t.size = 1
+	if op == OpVar {
+		t.sv = t
+	}
+	for _, a := range args {
+		t.size += a.size
+		if t.size > 1<<20 {
+			t.size = 1 << 20
+		}
+		if a.multi {
+			t.multi = true
+		} else if a.sv != nil {
+			if t.sv == nil {
+				t.sv = a.sv
+			} else if t.sv != a.sv {
+				t.multi = true
+			}
+		}
+	}
+	if t.multi {
+		t.sv = nil
+	}
+	if op == OpUF {
+		t.multi, t.sv = true, nil
+	}
 	s.tab[key] = t
 	s.all = append(s.all, t)
+	if r := s.tabulate(t); r != nil {
+		s.tab[key] = r
+		return r
+	}
 	return t
+}
+
+// tabulate replaces a term that depends on a single variable of at most 8
+// bits by a lookup in a constant table (computed by evaluating the term on
+// every value of the variable). This collapses per-byte classification,
+// case-folding and decoding logic into one select, which both decides many
+// conditions syntactically and keeps solver queries small.
+func (s *TermStore) tabulate(t *Term) *Term {
+	if s.NoTabulate || t.sv == nil || t.sv.W > 8 || t.Op == OpVar || t.Op == OpConst || t.size < 4 {
+		return nil
+	}
+	v := t.sv
+	// canonical forms are left alone
+	if t.Op == OpSelect && t.Args[0] == v {
+		return nil
+	}
+	if t.Op == OpEq && t.Args[0].Op == OpSelect && t.Args[0].Args[0] == v && t.Args[1].IsConst() {
+		return nil
+	}
+	n := 1 << uint(v.W)
+	vals := make([]uint64, n)
+	env := map[string]uint64{}
+	for x := 0; x < n; x++ {
+		env[v.Name] = uint64(x)
+		vals[x] = s.Eval(t, env, nil)
+	}
+	if t.W == 0 {
+		allT, allF := true, true
+		for _, b := range vals {
+			if b != 0 {
+				allF = false
+			} else {
+				allT = false
+			}
+		}
+		if allT {
+			return s.True
+		}
+		if allF {
+			return s.False
+		}
+		bit := s.Select(s.NewTable(1, vals), v)
+		return s.mk(OpEq, 0, 0, "", bit, s.Const(1, 1))
+	}
+	return s.Select(s.NewTable(t.W, vals), v)
 }
 
 func mask(w int) uint64 {
